@@ -125,11 +125,11 @@ class Evaluator(object):
         return self.cache[s]
 
     def _mk_pred(self, name, params, body):
-        bodies = body if isinstance(body, (list, tuple)) else [body]
-
         def pred(*args):
             env = dict(zip(params, args))
-            return all(bool(self.eval(b, env, None)) for b in bodies)
+            if isinstance(body, (list, tuple)):
+                return all(bool(self.eval(b, env, None)) for b in body)
+            return self.eval(body, env, None)          # a single expression: value-returning macro (may be an integer)
         return pred
 
     def eval(self, s, env, old):
